@@ -114,7 +114,7 @@ class Builder:
             return En('RData', 'NULL', (mk('u16', 65280), g.struct('NULL', length=mk('u16', n), data=cw))), bs, 65280
         t = S.BY_NAME[tname]
         shape = {'names': [tuple(len(self.label_bytes(l)) for l in self.sc['names'][n]) for n in rd_names] or [(1,)],
-                 'strs': [2, 0, 1], 'rest': 2, 'list': [2], 'gateway': 'Domain'}
+                 'strs': [2, 0, 1], 'rest': 2, 'list': self.sc.get('svcb_list', [2]), 'gateway': 'Domain'}
         # names inside RDATA must reuse the shared label symbols: temporarily route Gen.name through self.name
         ids = list(rd_names)
         orig = g.name
